@@ -738,16 +738,23 @@ def rule_stride_inv(ck, rule="INV-S"):
     constructor's stride formula of that state's fixed sizes (given that it was in the operand states).
     Without it the stride of one state and the extent of the elements written into it are unrelated."""
     tu, rec = ck.tu, ck.rec
-    if not tu.pl.all_fixed_locator or not tu.has("w_ctor"):
+    if not tu.pl.all_fixed_locator or not tu.has("w_ctor") or not tu.has("w_observe"):
         return
     from .rules_vector import MUTATORS, pre_facts
     csm = tu.S("w_ctor")
     cps = tu.meta["w_ctor"]["params"]
     step0 = tu.obs("w_ctor", "post", "step")
 
-    def F(fn, st):
-        sub = {("arg", cps.index("f%d" % i)): tu.obs(fn, st, "fs%d" % i) for i in range(tu.pl.nfixed)}
+    def F(fs):
+        sub = {("arg", cps.index("f%d" % i)): fs[i] for i in range(tu.pl.nfixed)}
         return csm.interp.subst_atoms(step0, sub)
+
+    # the stride field inside the container object (discovered from the observer witness)
+    v0 = tu.arg("w_observe", "v")
+    sa = tu.obs("w_observe", "o", "step").single_atom()
+    if sa is None or sa[0] != "mem":
+        raise AnalysisBroken("%s: the element stride is not a single field load in the observer" % tu.cfg)
+    step_off = (sa[1] - v0).const()
 
     for fn in sorted(tu.meta):
         ps = tu.meta[fn]["params"]
@@ -756,11 +763,20 @@ def rule_stride_inv(ck, rule="INV-S"):
             continue
         op = fn[2:]
         facts = pre_facts(tu, fn, op) if op in MUTATORS and "pre" in ps else Facts()
-        for st in ("pre", "pre_w"):
-            if st in ps:
-                facts.add(c_cmp("eq", tu.obs(fn, st, "step"), F(fn, st)))
+        # premise on the operands' entry states (fields of the objects at entry, not the observer copies: an opaque
+        # value-type call inside a loop may have clobbered those as far as the memory model knows)
+        for st, operand in (("pre", "v"), ("pre_w", "w")):
+            if st in ps and operand in ps:
+                facts.add(c_cmp("eq", atom(("mem", tu.arg(fn, operand) + step_off, 8)), F(_fs_atoms(tu, fn, operand))))
         for st in posts:
-            ck.eq(rule, fn, "element stride of the %s state == stride formula of its fixed sizes" % st, tu.obs(fn, st, "step"), F(fn, st), facts,
+            got = tu.obs(fn, st, "step")
+            want = F([tu.obs(fn, st, "fs%d" % i) for i in range(tu.pl.nfixed)])
+            if has_unknown(got) or has_unknown(want):
+                # the state was observed behind a loop of opaque value-type calls (element-wise copy / relocation):
+                # the memory model lost the object's fields; C09 V1 (bookkeeping transfer) covers these witnesses
+                rec.count("%s_not_decided_behind_opaque_loop" % rule)
+                continue
+            ck.eq(rule, fn, "element stride of the %s state == stride formula of its fixed sizes" % st, got, want, facts,
                   key="%s:%s-stride" % (op, st))
 
 
